@@ -9,7 +9,7 @@ PROPS = {
                      "evaluated in every state of every recorded trace.",
                 note="Trusted: TLC; the encoding/projection functions in harness/build.py; programs limited to the catalogue "
                      "(chains <= 3 nodes, join/fan-out/feedback templates), values 0..2, <= 8 calls per trace."),
-    "C10": dict(engines=["sync"], design="5/C10",
+    "C10": dict(engines=["sync", "abuffer", "atwindow", "apartition", "aemit"], design="5/C10",
                 technique="TLA+ spec SyncFlow metadata contracts (TLC) + trace validation of real metadata arguments",
                 text="The contracts of SyncFlow.tla include the metadata of every emission (member order, flatness, last-piece "
                      "rule); TLC proves them on the design for all metadata shapes (none/one/two/no-ref/mixed) and the metadata "
